@@ -1625,6 +1625,63 @@ def o_position_assembly(mir, tier, seed):
     return dict(theory='Int (positions as 0/1/2) + structural; ring / member positions uninterpreted; holes assumed pairwise non-overlapping (validity)', functions=['CoordinatePosition for Polygon / MultiPolygon / MultiLineString / GeometryCollection: calculate_coordinate_position', 'CoordinatePosition::coordinate_position (provided method)'], paths=npaths, status=st, info=info, model=None, replay=('position_assembly', ''))
 
 
+# ---- C05: how areas of rings / members are combined
+
+@obligation('C05', 'area_assembly_real', 'for ANY real ring / member areas: Polygon::signed_area (0-3 holes, any hole orientations) = sign(shell) * (|shell| - sum |hole|), unsigned_area = its absolute value; MultiPolygon (0-3 members) signed = sum of the members\' signed areas, unsigned = sum of their absolute values; GeometryCollection sums its members\' signed resp. unsigned areas; Triangle::signed_area for ANY real vertices = half the shoelace determinant; Rect = width x height [get_linestring_area, the members\' own areas, Rect::width/height uninterpreted]')
+def o_area_assembly(mir, tier, seed):
+    A = r'algorithm::area::<impl at [^>]*>::'
+    T = RealTheory()
+    bad, npaths = [], 0
+    zabs = lambda x: z3.If(x >= 0, x, -x)
+
+    def done(outs, want):
+        bad.append(z3.Not(z3.Or([pc for pc, _ in outs])))
+        for pc, r in outs:
+            bad.append(z3.And(pc, deref(r) != want))
+        return len(outs)
+    for nh in (0, 1, 2, 3):
+        areas = {'shell': T.var('area_shell_%d' % nh)}
+        for i in range(nh):
+            areas['h%d' % i] = T.var('area_h%d_%d' % (i, nh))
+        uf = {'re:geo_types::Polygon::<\\w+>::exterior': lambda ip, d: d[0][0], 're:geo_types::Polygon::<\\w+>::interiors': lambda ip, d: d[0][1],
+              're:(algorithm::area::)?get_linestring_area::<\\w+>': lambda ip, d, areas=areas: areas[d[0][1]]}
+        ip = Interp(mir, T, EXTRA, uf)
+        poly = [('ring', 'shell'), [('ring', 'h%d' % i) for i in range(nh)]]
+        outs = ip.call_fn(mir.find('geo', A + 'signed_area', sig=r'_1: &geo_types::Polygon<T>'), [Ref(lambda poly=poly: poly)], z3.BoolVal(True))
+        mag = zabs(areas['shell'])
+        for i in range(nh):
+            mag = mag - zabs(areas['h%d' % i])
+        npaths += done(outs, z3.If(areas['shell'] < 0, -mag, mag))
+    S = T.var('polygon_signed_area')
+    ip = Interp(mir, T, EXTRA, {'re:<geo_types::Polygon<T> as (algorithm::)?area::Area<T>>::signed_area': lambda ip, d: S})
+    npaths += done(ip.call_fn(mir.find('geo', A + 'unsigned_area', sig=r'_1: &geo_types::Polygon<T>'), [Ref(lambda: ('polygon',))], z3.BoolVal(True)), zabs(S))
+    for kind, sig, member in (('MultiPolygon', r'_1: &geo_types::MultiPolygon<T>', 'Polygon'), ('GeometryCollection', r'_1: &geo_types::GeometryCollection<T>', 'Geometry')):
+        for nm in (0, 1, 2, 3):
+            sa = [T.var('%s_signed_%d_%d' % (kind, nm, i)) for i in range(nm)]
+            ua = [T.var('%s_unsigned_%d_%d' % (kind, nm, i)) for i in range(nm)]
+            uf = {'re:<geo_types::%s<T> as (algorithm::)?area::Area<T>>::signed_area' % member: lambda ip, d, sa=sa: sa[d[0][1]],
+                  're:<geo_types::%s<T> as (algorithm::)?area::Area<T>>::unsigned_area' % member: lambda ip, d, ua=ua: ua[d[0][1]]}
+            for meth in ('signed_area', 'unsigned_area'):
+                ip = Interp(mir, T, EXTRA, uf)
+                g = [[('member', i) for i in range(nm)]]
+                outs = ip.call_fn(mir.find('geo', A + meth, sig=sig), [Ref(lambda g=g: g)], z3.BoolVal(True))
+                tot = T.const(0)
+                for i in range(nm):
+                    tot = tot + (sa[i] if meth == 'signed_area' else (zabs(sa[i]) if kind == 'MultiPolygon' else ua[i]))
+                npaths += done(outs, tot)
+    # Triangle, Rect
+    a, b, c = coord(T, 'ta'), coord(T, 'tb'), coord(T, 'tc')
+    ip = Interp(mir, T, EXTRA, {'re:geo_types::Triangle::<\\w+>::to_lines': lambda ip, d: [[list(a), list(b)], [list(b), list(c)], [list(c), list(a)]]})
+    outs = ip.call_fn(mir.find('geo', A + 'signed_area', sig=r'_1: &geo_types::Triangle<T>'), [Ref(lambda: ('triangle',))], z3.BoolVal(True))
+    npaths += done(outs, ((b[0] - a[0]) * (c[1] - a[1]) - (b[1] - a[1]) * (c[0] - a[0])) / 2)
+    W, H = T.var('rect_width'), T.var('rect_height')
+    for meth in ('signed_area', 'unsigned_area'):
+        ip = Interp(mir, T, EXTRA, {'re:geo_types::Rect::<\\w+>::width': lambda ip, d: W, 're:geo_types::Rect::<\\w+>::height': lambda ip, d: H})
+        npaths += done(ip.call_fn(mir.find('geo', A + meth, sig=r'_1: &geo_types::Rect<T>'), [Ref(lambda: ('rect',))], z3.BoolVal(True)), W * H)
+    st, info, model = check_unsat('area_assembly_real', [z3.Or(bad)])
+    return dict(theory='Real (nonlinear only in the triangle / rect products); ring and member areas uninterpreted reals', functions=['Area for Polygon / MultiPolygon / GeometryCollection / Triangle / Rect: signed_area, unsigned_area'], paths=npaths, status=st, info=info, model=None, replay=('area_assembly', ''))
+
+
 # ---- C05 kernels
 
 @obligation('C05', 'line_determinant_int', 'for ALL integers: Line::determinant() = start.x*end.y - start.y*end.x (the shoelace term)')
